@@ -4,7 +4,7 @@ middle of the chain, a callback adder and (optionally) a user callback on the BA
 
 params:
   n         number of derived layers (>= 1)
-  comp      "value" | "never"
+  comp      "value" | "exc" | "never"
   ncan      number of client threads cancelling f_n (0..2)
   xcan      None | layer whose future thread xcan cancels directly
   add       bool: thread add registers done-callback 2 on f_n
@@ -94,7 +94,10 @@ def build(p):
             if not base.set_running_or_notify_cancel():
                 return
             E.vsleep(0)
-            base.set_result(Val("v"))
+            if p.get("comp") == "exc":
+                base.set_exception(H.UserError("x"))
+            else:
+                base.set_result(Val("v"))
 
         def xcanceller():
             wait_start("xcan")
@@ -106,7 +109,7 @@ def build(p):
 
         for k in range(1, p.get("ncan", 1) + 1):
             E.spawn("can%d" % k, canceller, "can%d" % k)
-        if p.get("comp") == "value":
+        if p.get("comp") in ("value", "exc"):
             E.spawn("comp", completer)
         if p.get("xcan") is not None:
             E.spawn("xcan", xcanceller)
